@@ -99,6 +99,13 @@ def cases(tier, inst):
                 for style in ("from", "let"):
                     yield ("tinytype", dom, cls, style, False)
                 yield ("tinytype", dom, cls, "from", True)
+    # (g) the domain is ONE object, not a collection ("a value or a set of values"): same type filter
+    for member in range(len(MEMBER_KINDS)):
+        if MEMBER_KINDS[member][0] == "raw":
+            continue
+        for cls in ("Base", "Sub", "USub", "Hand", "Item"):
+            for style in ("from", "let"):
+                yield ("single", member, cls, style)
     # (e) one From object shared by two declarations
     for c1, c2 in (("Base", "Base"), ("Base", "Sub"), ("Sub", "Base"), ("Hand", "Base"), ("Base", "USub")):
         for join in ("none", "k"):
@@ -110,6 +117,8 @@ def lit_pairs(pairs):
 
 
 def wspec_of(case):
+    if case[0] == "single":
+        return (("DM", "Base", (MEMBER_KINDS[case[1]],)),)
     if case[0] == "tinytype":
         return (("DM", "Base", tuple(MEMBER_KINDS[i] for i in case[1])),)
     return WSPEC
@@ -119,6 +128,11 @@ def build_case(case, world, inst):
     """-> (query AST for the predicate form, query AST for the explicit form, expected objects/rows, kind)"""
     fam = case[0]
     dm = world["DM"]
+    if fam == "single":
+        _, member, cls, style = case
+        q = ("Q", "an", "entity", X, (), (("x", style + "1", cls, "DM"),))
+        exp = [o for o in dm if isinstance(o, W.CLASSES[cls])]
+        return q, None, exp, "list"
     if fam == "tinytype":
         _, dom, cls, style, constrained = case
         if constrained:
